@@ -27,6 +27,6 @@ sees them through `Skel.quiet` (bookkeeping-only conditionals do not matter to i
 def leafFns : List String := ["inotify.handleEvent", "inotify.register", "inotify.remove"]
 
 def viewOf (n : String) (ops : Option (List SkOp)) : Option (List SkOp) :=
-  if leafFns.contains n then ops.map Skel.quiet else ops
+  if leafFns.contains n then ops.map Skel.quiet else ops.map Skel.lite
 
 end SkeletonTie
